@@ -6,6 +6,8 @@
 #include <sys/stat.h>
 #include <ctime>
 
+extern "C" int __lsan_do_recoverable_leak_check() __attribute__((weak));
+
 namespace vf {
 
 struct Prop {
@@ -143,6 +145,7 @@ inline int run_main(int argc, char **argv, std::map<std::string, Prop> &props) {
     Verdict lastV;
     bool haveFail = false;
     time_t shrink_deadline = 0;
+    long leak_every = getenv("VERIF_LEAKCHECK") ? atol(getenv("VERIF_LEAKCHECK")) : 0, leak_counter = 0;
     bool ok = rc::check(a.property, [&]() {
         // bound the time rapidcheck spends shrinking (large cases): once over, every further candidate "passes" unevaluated;
         // this only affects how small the reported case is - our own time-bounded minimiser runs afterwards
@@ -151,6 +154,10 @@ inline int run_main(int argc, char **argv, std::map<std::string, Prop> &props) {
         c.property = a.property;
         S.current_case = c.text();
         Verdict v = P.check(c);
+        if (v.ok && leak_every > 0 && (++leak_counter % leak_every) == 0 && __lsan_do_recoverable_leak_check
+            && __lsan_do_recoverable_leak_check() != 0)
+            v = Verdict::fail(a.property + "/" + c.entry + "/any/leak", "LeakSanitizer found memory that became unreachable during the last "
+                              + std::to_string(leak_every) + " cases (report above)");
         if (!v.ok && excludes().match(v.key)) {
             if (S.counting) S.excluded[v.key]++;
             return;
